@@ -36,6 +36,20 @@ fn err_name(e: &ReaderError) -> &'static str {
     }
 }
 
+/// the error's name, after checking the error report itself against the reader: `ReaderError::position()` is the
+/// reader's position, `Display` names the kind and that position, `source()` is the I/O error exactly for `Read`.
+/// A wrong report turns into the name `err:badreport`, which no model output matches.
+fn err_report<R: Read>(rd: &TokenReader<R>, e: &ReaderError) -> &'static str {
+    let name = err_name(e);
+    let what = match name { "err:io" => "failed to read past position", "err:full" => "max buffer size exceeded at position", _ => "unexpected end of file at position" };
+    let shown = format!("{}", e);
+    let src = std::error::Error::source(e).is_some();
+    if e.position() != rd.position() || shown != format!("{}: {}", what, e.position()) || src != (name == "err:io") {
+        return "err:badreport";
+    }
+    name
+}
+
 fn join(toks: &[String]) -> String {
     if toks.is_empty() { "-".to_string() } else { toks.join(",") }
 }
@@ -67,7 +81,7 @@ fn lex_all<R: Read>(rd: &mut TokenReader<R>, limit: usize, retry: bool, via_read
             Ok(Some(t)) => toks.push(text_lex_tok(&t)),
             Ok(None) => return (toks, "end".to_string()),
             Err(e) => {
-                let n = err_name(&e);
+                let n = err_report(rd, &e);
                 if retry && n == "err:io" && errors < 8 {
                     errors += 1;
                     toks.push("!io".to_string());
@@ -102,7 +116,7 @@ fn skip_at<R: Read>(rd: &mut TokenReader<R>, kind: SkipKind, k: usize, limit: us
                 }
             }
             Ok(None) => return "nok end".to_string(),
-            Err(e) => return format!("nok {}", err_name(&e)),
+            Err(e) => return format!("nok {}", err_report(rd, &e)),
         }
     }
     let r = match kind { SkipKind::Container => rd.skip_container(), SkipKind::Unquoted => rd.skip_unquoted_value() };
@@ -111,11 +125,11 @@ fn skip_at<R: Read>(rd: &mut TokenReader<R>, kind: SkipKind, k: usize, limit: us
             let nx = match rd.next() {
                 Ok(Some(t)) => text_lex_tok(&t),
                 Ok(None) => "end".to_string(),
-                Err(e) => err_name(&e).to_string(),
+                Err(e) => err_report(rd, &e).to_string(),
             };
             format!("ok {}", nx)
         }
-        Err(e) => format!("{} -", err_name(&e)),
+        Err(e) => format!("{} -", err_report(rd, &e)),
     }
 }
 
@@ -124,17 +138,17 @@ fn bytes_at<R: Read>(rd: &mut TokenReader<R>, k: usize, n: usize) -> String {
         match rd.next() {
             Ok(Some(_)) => {}
             Ok(None) => return "nok end".to_string(),
-            Err(e) => return format!("nok {}", err_name(&e)),
+            Err(e) => return format!("nok {}", err_report(rd, &e)),
         }
     }
     let first = match rd.read_bytes(n) {
         Ok(b) => format!("b:{}", hex(b)),
-        Err(e) => return format!("{} -", err_name(&e)),
+        Err(e) => return format!("{} -", err_report(rd, &e)),
     };
     let nx = match rd.next() {
         Ok(Some(t)) => text_lex_tok(&t),
         Ok(None) => "end".to_string(),
-        Err(e) => err_name(&e).to_string(),
+        Err(e) => err_report(rd, &e).to_string(),
     };
     format!("{} {}", first, nx)
 }
@@ -399,8 +413,11 @@ pub fn exec(w: &[&str], obs: &mut Obs) -> Option<String> {
             let at = run_lex(&Cap::fresh(n), &[Step::Repeat(1)], &d, false, false);
             if at.out == "err:full" { obs.violation("full-although-fits", &case(), &format!("need {}", n)); }
             if n >= 2 {
-                let below = run_lex(&Cap::fresh(n - 1), &[], &d, false, false);
-                if below.out != "err:full" { obs.violation("need-not-tight", &case(), &format!("need {} but cap {} gives {}", n, n - 1, below.out)); }
+                // C07_buffer_full_iff: under EVERY fault-free schedule (whole reads and one byte at a time are the extremes)
+                for steps in [vec![], vec![Step::Repeat(1)]] {
+                    let below = run_lex(&Cap::fresh(n - 1), &steps, &d, false, false);
+                    if below.out != "err:full" { obs.violation("need-not-tight", &case(), &format!("need {} but cap {} gives {}", n, n - 1, below.out)); }
+                }
             }
             obs.count("tneed");
             Some(format!("{}", n))
@@ -413,6 +430,14 @@ pub fn exec(w: &[&str], obs: &mut Obs) -> Option<String> {
                 obs.violation("slice-vs-reference", &case(), &format!("impl {} {} reference {} {}", join(&r.toks), r.out, join(&reference.toks), reference.out));
             }
             if r.out == "end" && r.pos != d.len() { obs.violation("slice-final-position", &case(), &format!("pos {} len {}", r.pos, d.len())); }
+            // `TokenReader::new`: the default builder (32 KiB buffer) over the bytes as a `Read`
+            {
+                let mut rd = TokenReader::new(&d[..]);
+                let (toks, out) = lex_all(&mut rd, d.len() * 2 + 32, false, false);
+                if toks != r.toks || out != r.out || (out == "end" && rd.position() != d.len()) {
+                    obs.violation("default-reader-differs", &case(), &format!("new {} {} slice {} {}", join(&toks), out, join(&r.toks), r.out));
+                }
+            }
             obs.count(&format!("tlex:{}", r.out));
             for t in &r.toks { obs.count(&format!("tok:{}", t.split(':').next().unwrap_or("?"))); }
             Some(format!("{} {} {}", join(&r.toks), r.out, r.pos))
